@@ -507,7 +507,9 @@ func (r *c16Runner) runCase(stream string, cfg c16Cfg, emit bool, gen func(step 
 	t := c16NewTarget(cfg, w.store)
 	var ldt, actt []string
 	for _, k := range c16AllKeys() {
-		ldt = append(ldt, "("+cqN(k.num())+", "+w.fresh[k.num()].coqL()+")")
+		if f := w.fresh[k.num()]; f.ok != nil || f.errK != 404 { // absent = 404 in the model's table
+			ldt = append(ldt, "("+cqN(k.num())+", "+f.coqL()+")")
+		}
 	}
 	for d := 0; d <= c16NDocs; d++ {
 		actt = append(actt, "("+cqN(uint64(d))+", "+w.active[d]+")")
@@ -563,7 +565,6 @@ func (r *c16Runner) runCase(stream string, cfg c16Cfg, emit bool, gen func(step 
 		case "get":
 			rev, flag, err := t.rc.Get(r.ctx, op.key.docID(), op.key.version(), testCollectionID, RevCacheDontLoadBackupRev)
 			resCoq, c := c16ResCoq(rev, err, false)
-			observe(t.shardOf(op.key.docID()), "Get "+cqN(op.key.num()), resCoq, flag)
 			fr := w.fresh[op.key.num()]
 			if err != nil {
 				r.rec.Err(fmt.Sprintf("get:%d", c16Status(err)))
@@ -574,6 +575,7 @@ func (r *c16Runner) runCase(stream string, cfg c16Cfg, emit bool, gen func(step 
 			} else {
 				r.rec.Err("get:ok")
 			}
+			observe(t.shardOf(op.key.docID()), "Get "+cqN(op.key.num()), resCoq, flag)
 			if !pending[op.key.num()] {
 				got := c16Fresh{ok: c, errK: 0}
 				if err != nil {
@@ -728,6 +730,10 @@ func c16Alphabet(w *c16World) []c16Op {
 	return ops
 }
 
+// c16Between, when set, is called after every exhaustive case that is emitted to Coq: the random cases are
+// spread between them so that the case shards (evaluated in parallel) have similar sizes
+var c16Between func(idx int)
+
 func c16Exhaustive(r *c16Runner, stream string, cfg c16Cfg, length int, emit bool, drain bool) int {
 	w0 := c16NewWorld(r.ctx)
 	alpha := c16Alphabet(w0)
@@ -759,6 +765,9 @@ func c16Exhaustive(r *c16Runner, stream string, cfg c16Cfg, length int, emit boo
 			}
 			return nil
 		})
+		if emit && c16Between != nil {
+			c16Between(idx)
+		}
 	}
 	return n
 }
@@ -938,14 +947,8 @@ func c16RunSched(r *c16Runner, s c16Sched, variant string) {
 	}
 	if bad != "" {
 		sig := "scheduled-overlap-gauge-drift"
-		hasPut := false
-		for _, b := range s.between {
-			if b == "put" {
-				hasPut = true
-			}
-		}
-		if hasPut && !s.loadOK {
-			sig = "failed-load-put-race-leak"
+		if len(s.between) == 1 && s.between[0] == "put" && !s.loadOK && variant == "lru" {
+			sig = "failed-load-put-race-leak" // the minimal schedule of the defect found in the unchanged tree
 		}
 		r.rec.Fail("accounting_all_interleavings", sig, in, "at quiescence:"+bad)
 	}
@@ -1068,9 +1071,6 @@ func TestVerifC16(t *testing.T) {
 	r := &c16Runner{t: t, rec: rec, ctx: ctx}
 	rnd := vNewRand(vSeed())
 
-	// ---- (0) scheduled overlaps of load / put / remove / evict on the real code (monitors) ----
-	c16Scheduled(r)
-
 	// ---- (a) corpus ----
 	k02, k12, k22, k05 := c16Key{0, 2}, c16Key{1, 2}, c16Key{2, 2}, c16Key{0, 5}
 	script := func(stream string, cfg c16Cfg, mk func(w *c16World) []c16Op) {
@@ -1109,6 +1109,20 @@ func TestVerifC16(t *testing.T) {
 		})
 	}
 
+	// ---- (c) random: structured mostly-valid stream and adversarial stream, spread between the
+	// exhaustive cases (shard balance); the remainder runs after them ----
+	nRandom, nAdv := vBudget(350, 2500), vBudget(250, 1500)
+	c16Between = func(idx int) {
+		if idx%3 == 0 && nRandom > 0 {
+			nRandom--
+			c16RandomCase(r, rnd, "random", false)
+		} else if idx%3 == 1 && nAdv > 0 {
+			nAdv--
+			c16RandomCase(r, rnd, "adversarial", true)
+		}
+	}
+	defer func() { c16Between = nil }()
+
 	// ---- (b) bounded-exhaustive ----
 	n := 0
 	n += c16Exhaustive(r, "exhaustive", c16Cfg{variant: "orch", cap: 2, maxb: 100, shards: 1}, 3, true, true)
@@ -1126,15 +1140,18 @@ func TestVerifC16(t *testing.T) {
 	rec.Extra("exhaustive_sequences", n)
 	rec.Extra("exhaustive_alphabet", len(c16Alphabet(c16NewWorld(ctx))))
 
-	// ---- (c) random: structured mostly-valid stream and adversarial stream ----
-	for i := 0; i < vBudget(350, 2500); i++ {
+	c16Between = nil
+	for ; nRandom > 0; nRandom-- {
 		c16RandomCase(r, rnd, "random", false)
 	}
-	for i := 0; i < vBudget(250, 1500); i++ {
+	for ; nAdv > 0; nAdv-- {
 		c16RandomCase(r, rnd, "adversarial", true)
 	}
 
-	// ---- (d) unscheduled concurrent stress, recount at rest ----
+	// ---- (d) scheduled overlaps of load / put / remove / evict on the real code (monitors) ----
+	c16Scheduled(r)
+
+	// ---- (e) unscheduled concurrent stress, recount at rest ----
 	for i := 0; i < vBudget(4, 12); i++ {
 		c16Stress(r, vSeed()*131+uint64(i), []string{"orch", "lru", "sharded"}[i%3])
 	}
